@@ -382,8 +382,10 @@ Section Extended.
     let m2 := if e <? 0 then m2 else m2 * 2 ^ e in
     let v := Z.sgn a * m2 in
     if e2 <? 0 then v / 2 ^ (- e2) else v * 2 ^ e2.
+  (* the value handed to the correction tail  if (a >= _p) a -= _p; else if (a < 0) a += _p;  (before the fma result is rounded) *)
+  Definition ex_tail (a : Z) : Z := a - ex_q a * p.
   Definition ex_reduce (a : Z) : Z :=
-    let r := rnd prec (a - ex_q a * p) in
+    let r := rnd prec (ex_tail a) in
     if p <=? r then r - p else if r <? 0 then r + p else r.
   Definition ex_negin (r : Z) : Z := let x := - r in if x <? 0 then x + p else x.
   (* (repaired, fix-12: the specialisations are written for the deduced types and therefore selected) *)
